@@ -88,7 +88,7 @@ def _need(key, rhs_shape=None, cur=()):
                 need.append(rhs_shape[m] if (rhs_shape is not None and m < len(rhs_shape)) else 1)
             m += 1
         elif isinstance(e, (list, np.ndarray)):
-            need.append(int(max(e)) + 1)
+            need.append(max(int(max(e)) + 1, 1))
             m += 1
         else:
             need.append(e + 1 if e >= 0 else 1)
@@ -104,7 +104,8 @@ def _resolve(key, shape):
             idx.append(np.arange(I)[e])
             keep.append(True)
         elif isinstance(e, (list, np.ndarray)):
-            idx.append(np.asarray(e, dtype=int))
+            ee = np.asarray(e, dtype=int)
+            idx.append(np.where(ee < 0, ee + I, ee))
             keep.append(True)
         else:
             idx.append(np.array([e if e >= 0 else I + e]))
@@ -149,8 +150,9 @@ def _rand_key(rng, shape, write, grow_p=0.25, forms=("int", "int", "int", "int",
             elif c == 3:
                 key.append({"s": [None, int(rng.integers(1, I + 1)), None]})
             else:
-                if I >= 2 and not write:
-                    key.append({"s": [None, -1, None]})
+                if I >= 2:
+                    # bounds counted from the end (reads and writes)
+                    key.append({"s": [[None, -1, None], [-1, None, None], [-I, -1, None], [-2, None, None]][int(rng.integers(0, 4))]})
                 else:
                     key.append({"s": [None, None, None]})
         else:
@@ -158,6 +160,8 @@ def _rand_key(rng, shape, write, grow_p=0.25, forms=("int", "int", "int", "int",
             vals = [int(x) for x in rng.choice(I, size=k, replace=False)]
             if write and rng.random() < grow_p:
                 vals[-1] = int(I)
+            elif rng.random() < 0.25:
+                vals = [v - I if rng.random() < 0.5 else v for v in vals]           # some entries counted from the end
             key.append({"l": vals})
             nlist += 1
     return key
@@ -643,7 +647,11 @@ def _valid(op, model):
             I = shape[n] if not new_mode else 0
             if isinstance(e, dict) and "s" in e:
                 a, b, c = e["s"]
-                if any(x is not None and x < 0 for x in (a, b)) and (k == "set_region" or new_mode):
+                if any(x is not None and x < 0 for x in (a, b)) and new_mode:
+                    return False
+                if any(x is not None and x < -I for x in (a, b)):
+                    return False
+                if k == "set_region" and len(range(I)[slice(a, b, c)]) == 0 and any(x is not None and x < 0 for x in (a, b)):
                     return False
                 if new_mode and b is None:
                     return False
@@ -653,7 +661,10 @@ def _valid(op, model):
                     return False
             elif isinstance(e, dict):
                 vals = e.get("l", e.get("a"))
-                if any(v < 0 for v in vals) or (k == "get_region" and any(v >= I for v in vals)) or len(set(vals)) != len(vals):
+                if any(v < 0 for v in vals) and (new_mode or any(v < -I for v in vals)):
+                    return False
+                norm_ = [v + I if v < 0 else v for v in vals]
+                if (k == "get_region" and any(v >= I for v in norm_)) or len(set(norm_)) != len(norm_):
                     return False
             else:
                 if e < 0 and (new_mode or e < -I):
